@@ -1536,10 +1536,21 @@ def _testlike_exhaustive(ctx: RuleCtx, bk: Module, t: ast.AST, ti: L.FnInfo, ln:
                 else:
                     out_.append(s_)
             return out_
-        if field == 'exe':
-            body = [s for s in splice(ln.ast.body) if not isinstance(s, (ast.For, ast.AsyncFor))]  # type: ignore[union-attr]
+        ti_f, tab_fn, helper = ti, t, False
+        src_loops = [s for s in ast.walk(ln.ast) if isinstance(s, ast.For) and s is not ln.ast and ti.nodes_of(s.iter) and  # type: ignore[arg-type]
+                     f'attr:{tvn}.{field}' in trc.origins(s.iter, ti.nodes_of(s.iter)[0])]
+        plain = [s for s in splice(ln.ast.body) if not isinstance(s, (ast.For, ast.AsyncFor))]  # type: ignore[union-attr]
+        plain_reads = any(f'{tvn}.{field}' in norm(s_) for s_ in plain)
+        if field == 'exe' and not plain_reads and len(src_loops) == 1 and isinstance(src_loops[0].target, ast.Name):
+            # the program is handled together with other values by one loop (e.g. over chain([t.exe], t.cmd_args))
+            body = src_loops[0].body
+            subject = src_loops[0].target.id
+        elif field == 'exe':
+            body = plain
             if any(isinstance(x, (ast.For, ast.AsyncFor, ast.While)) for s_ in body for x in ast.walk(s_)):
                 raise Undecided('get_testlike_targets:exe: the statements that handle the test program contain loops')
+            if not plain_reads:
+                raise Undecided(f'get_testlike_targets:exe: no statement of the per-test code reads {tvn}.exe directly or iterates over it')
             subject = f'{tvn}.exe'
         else:
             loops = [s for s in ast.walk(ln.ast) if isinstance(s, ast.For) and s is not ln.ast and ti.nodes_of(s.iter) and  # type: ignore[arg-type]
@@ -1548,14 +1559,50 @@ def _testlike_exhaustive(ctx: RuleCtx, bk: Module, t: ast.AST, ti: L.FnInfo, ln:
                 raise Undecided(f'get_testlike_targets: {len(loops)} loops over {tvn}.{field}')
             body = loops[0].body
             subject = loops[0].target.id
+        subject_src = subject
+        # map-and-filter through a helper: `r = self.h(S)` + `if r is not None: yield r`  ==  the helper's body with `return X` read as `yield X`
+        sb = splice(list(body))
+        if len(sb) == 2 and isinstance(sb[0], ast.Assign) and len(sb[0].targets) == 1 and isinstance(sb[0].targets[0], ast.Name) and isinstance(sb[0].value, ast.Call) \
+                and isinstance(sb[1], ast.If) and not sb[1].orelse and len(sb[1].body) == 1 and isinstance(sb[1].body[0], ast.Expr) and isinstance(sb[1].body[0].value, ast.Yield):
+            rn = sb[0].targets[0].id
+            hc = sb[0].value
+            tst = sb[1].test
+            tst_ok = (isinstance(tst, ast.Name) and tst.id == rn) or (isinstance(tst, ast.Compare) and len(tst.ops) == 1 and isinstance(tst.ops[0], ast.IsNot)
+                                                                        and norm(tst.left) == rn and norm(tst.comparators[0]) == 'None')
+            yv = sb[1].body[0].value.value
+            hn = call_name(hc) or ''
+            hq = None
+            if hn.count('.') == 1 and hn.split('.')[0] in ('self', 'cls', 'Backend') and bk.has_func(f'Backend.{hn.split(".")[1]}'):
+                hq = f'Backend.{hn.split(".")[1]}'
+            elif isinstance(hc.func, ast.Name) and bk.has_func(hc.func.id):
+                hq = hc.func.id
+            if tst_ok and isinstance(yv, ast.Name) and yv.id == rn and hq is not None and len(hc.args) == 1 and not hc.keywords and norm(hc.args[0]) == subject:
+                hfn = bk.func(hq)
+                hps = [a_.arg for a_ in hfn.args.posonlyargs + hfn.args.args if a_.arg not in ('self', 'cls')]
+                if len(hps) != 1:
+                    raise Undecided(f'get_testlike_targets:{field}: helper {hq} does not take exactly the value')
+                ti_f, tab_fn, helper = L.FnInfo(bk, hq, hfn), hfn, True
+                body = hfn.body
+                subject_src = hps[0]
+                subject = 'ARG1'
+        trc_f = L.Tracer(ti_f)
         for st in body:
             for x in walk_no_nested(st):
-                if isinstance(x, ast.YieldFrom) or (isinstance(x, ast.Call) and call_name(x) not in ('isinstance', 'getattr', 'hasattr', 'type', 'id') and ti.nodes_of(x) and any(
-                        (isinstance(a, ast.Name) and a.id == subject) or f'attr:{subject}' in trc.origins(a, ti.nodes_of(x)[0]) or (isinstance(a, ast.Name) and a.id == tvn)
+                if isinstance(x, ast.YieldFrom) or (isinstance(x, ast.Call) and call_name(x) not in ('isinstance', 'getattr', 'hasattr', 'type', 'id') and ti_f.nodes_of(x) and any(
+                        (isinstance(a, ast.Name) and a.id == subject_src) or f'attr:{subject_src}' in trc_f.origins(a, ti_f.nodes_of(x)[0]) or
+                        (isinstance(a, ast.Name) and a.id == tvn and not helper)
                         for a in list(x.args) + [k.value for k in x.keywords])):
                     raise Undecided(f'get_testlike_targets:{field}: `{short(x, 60)}` handles the value in code the row table does not contain')
-        tab = tables.extract(t, body=body, effects=eff, name=f'get_testlike_targets:{field}')  # type: ignore[arg-type]
-        if field == 'exe':
+        tab = tables.extract(tab_fn, body=body, effects=eff, name=f'get_testlike_targets:{field}')  # type: ignore[arg-type]
+
+        def row_yields(r: tables.Row, helper: bool = helper) -> T.Set[str]:
+            ys_ = {e_ for e_ in r.effects if e_.startswith('yield ')}
+            if helper and r.outcome[0] == 'return' and r.outcome[1] not in ('None',):
+                ys_.add('yield ' + r.outcome[1])      # what the helper returns is what the caller yields
+            return ys_
+        if not helper and not any(a.kind == 'isinstance' for a in tab.atoms()) and not any(subject in y_ for r_ in tab.rows for y_ in row_yields(r_)):
+            raise Undecided(f'get_testlike_targets:{field}: the code for this source neither classifies nor yields `{subject}`')
+        if field == 'exe' and not helper and subject == f'{tvn}.exe':
             # the classified value is `t.exe` itself or a local that holds it (possibly re-bound while unwrapping)
             subs = {a.args[0] for a in tab.atoms() if a.kind == 'isinstance'}
             cands = set()
@@ -1568,6 +1615,7 @@ def _testlike_exhaustive(ctx: RuleCtx, bk: Module, t: ast.AST, ti: L.FnInfo, ln:
                 raise Undecided(f'get_testlike_targets:exe: the test program is classified under several names {sorted(cands)}')
             if cands:
                 subject = next(iter(cands))
+                subject_src = subject
         free = []
         for a in tab.atoms():
             if a.kind == 'isinstance' and a.args[0] == subject:
@@ -1602,7 +1650,7 @@ def _testlike_exhaustive(ctx: RuleCtx, bk: Module, t: ast.AST, ti: L.FnInfo, ln:
                 for r in rows:
                     if r.outcome[0] == 'raise':
                         continue
-                    if not (accept & set(r.effects)):
+                    if not (accept & row_yields(r)):
                         bad = r
             nob += 1
             if not fired_any:
@@ -1616,18 +1664,18 @@ def _testlike_exhaustive(ctx: RuleCtx, bk: Module, t: ast.AST, ti: L.FnInfo, ln:
         for w, wfield in wrappers:
             nob += 1
             done = False
-            if subject.isidentifier():
-                for n in ti.cfg.nodes:
+            if subject_src.isidentifier():
+                for n in ti_f.cfg.nodes:
                     st = n.ast if n.kind == 'stmt' else None
-                    if isinstance(st, ast.Assign) and len(st.targets) == 1 and isinstance(st.targets[0], ast.Name) and st.targets[0].id == subject and \
-                            isinstance(st.value, ast.Attribute) and isinstance(st.value.value, ast.Name) and st.value.value.id == subject and st.value.attr == wfield and \
-                            any(id(st) == id(x) for b_ in body for x in ast.walk(b_)) and _under_isinstance(ctx, ti, bk, n, subject, w[1].name):
+                    if isinstance(st, ast.Assign) and len(st.targets) == 1 and isinstance(st.targets[0], ast.Name) and st.targets[0].id == subject_src and \
+                            isinstance(st.value, ast.Attribute) and isinstance(st.value.value, ast.Name) and st.value.value.id == subject_src and st.value.attr == wfield and \
+                            any(id(st) == id(x) for b_ in body for x in ast.walk(b_)) and _under_isinstance(ctx, ti_f, bk, n, subject_src, w[1].name):
                         # the unwrapping must come before the classification of the value: its isinstance test dominates the other tests on the value
                         in_body = {id(x) for b_ in body for x in ast.walk(b_)}
-                        ws = [m for m in ti.cfg.nodes if m.kind == 'test' and id(m.ast) in in_body and f'isinstance({subject}, ' in norm(m.ast.test)  # type: ignore[union-attr]
+                        ws = [m for m in ti_f.cfg.nodes if m.kind == 'test' and id(m.ast) in in_body and f'isinstance({subject_src}, ' in norm(m.ast.test)  # type: ignore[union-attr]
                               and norm(m.ast.test).rstrip(')').endswith(w[1].name)]  # type: ignore[union-attr]
-                        others = [m for m in ti.cfg.nodes if m.kind == 'test' and id(m.ast) in in_body and f'isinstance({subject}, ' in norm(m.ast.test) and m not in ws]  # type: ignore[union-attr]
-                        if ws and all(ti.cfg.dominated_by_any(m, ws) for m in others):
+                        others = [m for m in ti_f.cfg.nodes if m.kind == 'test' and id(m.ast) in in_body and f'isinstance({subject_src}, ' in norm(m.ast.test) and m not in ws]  # type: ignore[union-attr]
+                        if ws and all(ti_f.cfg.dominated_by_any(m, ws) for m in others):
                             done = True
             if done:
                 ctx.ok(f'get_testlike_targets: a {w[1].name} in {tvn}.{field} is replaced by its .{wfield} before the value is classified')
@@ -1651,7 +1699,7 @@ def _testlike_exhaustive(ctx: RuleCtx, bk: Module, t: ast.AST, ti: L.FnInfo, ln:
                     fired_any = True
                     if r.outcome[0] == 'raise':
                         continue
-                    ys_ = [e for e in r.effects if e.startswith('yield ')]
+                    ys_ = sorted(row_yields(r))
                     if not ys_:
                         badr = r
                     elif not any(f'{subject}.{wfield}' in e or 'get_target' in e for e in ys_):
@@ -2053,6 +2101,15 @@ def r6(ctx: RuleCtx) -> None:
                             n_priv += 1
                             guard_node = xnode
                             ok = _under_isinstance(ctx, info, mod, guard_node, y, 'GeneratedList') or _under_isinstance(ctx, info, mod, at, y, 'GeneratedList')
+                            if not ok and y in info.params and not info.defs().get(y):
+                                # the class of a parameter is what its annotation says, or what the callers pass: not visible here
+                                pa = next((a_.annotation for a_ in info.fn.args.posonlyargs + info.fn.args.args + info.fn.args.kwonlyargs if a_.arg == y), None)
+                                acl: T.List[T.Tuple[Module, ast.ClassDef]] = []
+                                _expand_ann(ctx.repo, mod, pa, acl)
+                                if acl and all(c_[1].name == 'GeneratedList' for c_ in acl):
+                                    ok = True
+                                elif not acl or any(c_[1].name == 'GeneratedList' for c_ in acl):
+                                    raise Undecided(f'{q}: `{short(c, 80)}` uses the private directory for outputs of the parameter `{y}`, whose class is decided by the callers')
                             ctx.require(ok, f'{q}: outputs of `{y}` are placed in the private directory of `{norm(xarg)}` only when `{y}` is a GeneratedList', mod, q, c,
                                         f'`{short(c, 100)}` joins an output name of `{y}` with the *private* directory of `{norm(xarg)}` on a path where `{y}` is not known to be a '
                                         'GeneratedList (only generator outputs live in the private directory of their consumer; a target\'s outputs live in its own directory)', c)
@@ -2222,9 +2279,6 @@ def r8(ctx: RuleCtx) -> None:
         lv = node.ast.targets[0].id
     if lv is None:
         raise Undecided('write(): the build line is not first bound to a local')
-    first_write = [n for n in w.cfg.nodes if any(_uses_file(c, ps[0]) and any(isinstance(x, ast.Name) and x.id == lv for x in _written_exprs(c)) for c in L.node_calls(n))]
-    if not first_write:
-        raise Undecided('write(): the build line local is not written to the file')
     consts: T.List[str] = []
     quoter = None
     trw = L.Tracer(w)
@@ -2282,6 +2336,25 @@ def r8(ctx: RuleCtx) -> None:
                     raise Undecided(f'write(): part `{short(p_, 60)}` of the build line is not a constant, a quoted path list or a local')
             else:
                 harvest(p_, at, depth, fi)
+    # the pieces may first be collected in a list that is joined once: [template, ...] + append/extend/+= ... ; line = SEP.join(pieces)
+    if isinstance(node.ast, ast.Assign) and isinstance(node.ast.value, ast.List):
+        pieces: T.List[T.Tuple[Node, T.Optional[ast.AST]]] = [(node, e_) for e_ in node.ast.value.elts] + [(n_, a_) for n_, c_, a_ in w.additions(lv)]
+        if any(a_ is None or isinstance(a_, ast.Starred) for _, a_ in pieces):
+            raise Undecided(f'write(): pieces are added to `{lv}` in a form the rule does not itemise')
+        joins = [n_ for n_ in w.cfg.nodes if n_.kind == 'stmt' and isinstance(n_.ast, ast.Assign) and len(n_.ast.targets) == 1 and isinstance(n_.ast.targets[0], ast.Name)
+                 and isinstance(n_.ast.value, ast.Call) and isinstance(n_.ast.value.func, ast.Attribute) and n_.ast.value.func.attr == 'join'
+                 and isinstance(n_.ast.value.func.value, ast.Constant) and len(n_.ast.value.args) == 1 and isinstance(n_.ast.value.args[0], ast.Name) and n_.ast.value.args[0].id == lv]
+        if len(joins) != 1:
+            raise Undecided(f'write(): the piece list `{lv}` is not joined exactly once')
+        consts.append(str(joins[0].ast.value.func.value.value))  # type: ignore[union-attr]
+        for n_, a_ in pieces:
+            assert a_ is not None
+            harvest(a_, n_)
+        node = joins[0]
+        lv = node.ast.targets[0].id  # type: ignore[union-attr]
+    first_write = [n for n in w.cfg.nodes if any(_uses_file(c, ps[0]) and any(isinstance(x, ast.Name) and x.id == lv for x in _written_exprs(c)) for c in L.node_calls(n))]
+    if not first_write:
+        raise Undecided('write(): the build line local is not written to the file')
     # all definitions of the line variable that reach its write, except rewrites of the finished line (replace / split on Windows)
     fresh_defs = [d.node for d in w.defs().get(lv, []) if d.kind == 'assign' and d.value is not None and not any(isinstance(x, ast.Name) and x.id == lv for x in ast.walk(d.value))
                   and d.node.id != node.id]
